@@ -8,6 +8,7 @@ import ast
 import glob
 import json
 import os
+from concurrent.futures import ThreadPoolExecutor
 
 from vlib import cy, diff
 from vlib.gen import gengen
@@ -44,8 +45,12 @@ def leaf_diffs(a, b, path=(), owner=None):
     path items are (label of the enclosing list, index)."""
     if a == b:
         return
+    if _is_context_slot(path):
+        yield (path, owner, a, b)
+        return
     if isinstance(a, list) and isinstance(b, list) and len(a) == len(b) and \
-            (not a or not isinstance(a[0], str) or a[0] == b[0]):
+            (not a or not isinstance(a[0], str) or a[0] == b[0]) and \
+            not (a and a[0] == 'exc' and len(a) > 1 and isinstance(a[1], str) and a[1] != b[1]):
         label = a[0] if a and isinstance(a[0], str) else None
         if label == 'exc' and len(a) > 1 and isinstance(a[1], str) and a[1] == b[1]:
             owner = a[1]
@@ -70,30 +75,98 @@ def _is_context_slot(path):
     return False
 
 
-def _is_caught_ctx(path):
-    # the body logs ('caught', name, args, type(__context__).__name__): -> (..., ('caught-log', 1), (None, 3), ...)
-    for i in range(len(path) - 1):
-        if path[i] == ('caught-log', 1) and path[i + 1][1] == 3:
-            return True
-    return False
+def _excinfo_entry_diff(ea, eb):
+    """two log entries that differ only in an exc-info name slot -> (exp name, got name) else None"""
+    try:
+        if ea[0] != 'tuple' or eb[0] != 'tuple' or len(ea[1]) != len(eb[1]):
+            return None
+        head = ea[1][0]
+        if head != eb[1][0] or head[0] != 'str':
+            return None
+        tag = ast.literal_eval(head[1])
+        slot = {'ei': 1, 'exit': 3, 'caught': 3}.get(tag, 1 if tag.startswith('fin') else None)
+        if slot is None or slot >= len(ea[1]):
+            return None
+        for i, (x, y) in enumerate(zip(ea[1], eb[1])):
+            if i != slot and x != y:
+                return None
+        x, y = ea[1][slot], eb[1][slot]
+        if x[0] == 'str' and y[0] == 'str' and x != y:
+            return ast.literal_eval(x[1]), ast.literal_eval(y[1])
+    except Exception:
+        return None
+    return None
 
 
 OUTER = ['exc', 'KeyError', ['tuple', [['str', "'outer'"]]]]
 THROWN_NAME = {'V': 'ValueError', 'Vi': 'ValueError', 'GE': 'GeneratorExit', 'GEi': 'GeneratorExit', 'SI': 'StopIteration',
                'SIi': 'StopIteration', 'SAI': 'StopAsyncIteration', 'MB': 'MyBase', 'ME': 'MyErr', 'KE': 'KeyError',
                '2arg': 'ValueError'}
+THROWLESS = ('PlainIter', 'CloseRaises', 'list', 'tuple_iter', 'ItAw')
 
 
 def _has_outer(x):
     if isinstance(x, list):
-        if x[:3] == OUTER or x == ['str', "'KeyError'"]:
+        if x[:3] == OUTER or x[:3] == ['exc', 'KeyError', ['tuple', [['<deep>']]]]:
             return True
         return any(_has_outer(e) for e in x)
     return False
 
 
-def _text(out):
-    return json.dumps(out[:3] if out and out[0] == 'exc' else out)
+def _ctx_of(x):
+    if x and x[0] == 'exc' and len(x) > 4:
+        return x[3][1], x[4][1]
+    return None, None
+
+
+def _ctx_kind(a, b, owner=None):
+    """a, b: differing contents of a __context__ slot (exception sig or None) of reference / compiled run, slot owned by
+    exception `owner` -> (kind, name of the exception whose __context__ differs)"""
+    if a is not None and b is None:
+        return 'ctx-missing', owner
+    if _has_outer(b) and not _has_outer(a):
+        return 'ctx-outer', owner
+    if a is not None and b is not None and a[:3] == b[:3]:
+        # same exception in the slot: look where their own chains differ
+        (ca, ka), (cb, kb) = _ctx_of(a), _ctx_of(b)
+        if ka != kb and ca == cb:
+            return _ctx_kind(ka, kb, a[1])
+    return 'ctx-other', owner
+
+
+def diff_features(ent_e, ent_g):
+    """classify every innermost difference between two trace entries [op, outcome, log, unraisable]:
+    ctx-missing  : a __context__ / sys.exc_info() observation is empty in the compiled run, set in CPython's
+    ctx-outer    : the compiled run shows the exception the *caller* was handling (KeyError('outer')), CPython does not
+    ctx-other    : both show a context, but a different one
+    other        : anything else"""
+    feats = []
+    # outcome and unraisable records: structural leaf diffs
+    for idx in (1, 3):
+        for p, owner, a, b in leaf_diffs(ent_e[idx], ent_g[idx]):
+            if _is_context_slot(p):
+                feats.append(_ctx_kind(a, b, owner))
+            else:
+                feats.append(('other', 'outcome' if idx == 1 else 'unraisable'))
+    # logs: entry-wise
+    le, lg = ent_e[2], ent_g[2]
+    if le != lg:
+        if len(le) != len(lg):
+            feats.append(('other', 'log'))
+        else:
+            for x, y in zip(le, lg):
+                if x == y:
+                    continue
+                d = _excinfo_entry_diff(x, y)
+                if d is None:
+                    feats.append(('other', 'log'))
+                elif d[1] == 'NoneType':
+                    feats.append(('ctx-missing', 'log'))
+                elif d[1] == 'KeyError' and d[0] != 'KeyError':
+                    feats.append(('ctx-outer', 'log'))
+                else:
+                    feats.append(('ctx-other', 'log'))
+    return feats
 
 
 def mechanism(body, hist, te, tg):
@@ -117,61 +190,116 @@ def mechanism(body, hist, te, tg):
         state = C23_drive._state_after(ctx, kind, state, o, ent[1])
     op = te[k][0]
     inh = op.startswith('H!')
+    inh_before = inh or any(ent[0].startswith('H!') for ent in te[1:k])
+    inh_throw_before = any(ent[0].startswith('H!') and _opkey(ent[0]).split(':')[0].split('/')[0] in
+                           ('throw', 'athrow', 'close', 'aclose') for ent in te[1:k + 1])
+    inh_throw_before = inh_throw_before or any(ent[0].startswith('H!') and ent[0].endswith('/t') for ent in te[1:k + 1])
     o = _opkey(op)
     oe, og = te[k][1], tg[k][1]
     info = {'k': k, 'state': state, 'op': op}
     opk = o.split(':')[0].split('/')[0]
     oparg = o.split(':')[1].split('/')[0] if ':' in o else ''
-    pre = '%s:%s:%s' % (kind, state_class(state), o)
+    pre = '%s:%s:%s' % (kind, state_class(state), opk)
     is_throw = opk in ('throw', 'athrow')
     is_exit = opk in ('close', 'aclose', 'del', '(drop)')
-    # (A) the first resume was a rejected send(non-None): CPython leaves the object startable
-    if state == 'created' and nonnone_send_unstarted:
-        return 'send-nonnone-unstarted-finishes', info
-    diffs = list(leaf_diffs(te[k][1:], tg[k][1:]))
-    info['diffs'] = [[[list(x) for x in p], ow, json.dumps(a)[:120], json.dumps(b)[:120]] for p, ow, a, b in diffs[:4]]
+    lex = state.split('|')[0]
+    unknown = state == 'susp-unknown'     # resumed after close() was ignored: suspension point not observable
+    in_finally = lex.endswith('-finally') or '+f' in lex
+    in_handler = in_finally or lex.endswith('-except') or '+x' in lex or unknown
+    is_resume = opk in ('next', 'send', 'anext', 'asend', 'await-next')
+    deleg_kind = state.split('|d=')[1] if '|d=' in state else None
+    feats = diff_features(te[k], tg[k])
+    info['features'] = sorted(set('%s/%s' % f for f in feats))
+    kinds = {f[0] for f in feats}
     got_pep479 = 'RuntimeError' in _cls(og) and 'raised Stop' in json.dumps(og)
     exp_pep479 = 'RuntimeError' in _cls(oe) and 'raised Stop' in json.dumps(oe)
+    got_finished = _cls(og).split(':', 1)[-1] in ('stop', 'astop') or 'cannot reuse already awaited' in json.dumps(og)
+    got_ignored = 'ignored GeneratorExit' in json.dumps([og, tg[k][3]])
+    exp_ignored = 'ignored GeneratorExit' in json.dumps([oe, te[k][3]])
     # (C) throw(StopIteration)/athrow(StopAsyncIteration) into a not-yet-started object: CPython raises it unchanged
     if is_throw and oparg in ('SI', 'SIi', 'SAI') and state == 'created' and got_pep479 and not exp_pep479:
         return 'throw-stopiteration-unstarted-pep479', info
-    # (C5) StopIteration thrown while delegating: CPython 3.12 lets `yield from` take it as the delegate's result
-    if is_throw and oparg in ('SI', 'SIi') and state == 'deleg' and got_pep479 and not exp_pep479:
-        return 'throw-stopiteration-in-delegation-pep479', info
-    # chain-only differences
-    if diffs and all(_is_context_slot(p) or _is_caught_ctx(p) for p, _, _, _ in diffs):
-        missing = [d for d in diffs if (d[3] is None or d[3] == ['str', "'NoneType'"]) and d[2] is not None]
-        extra_outer = [d for d in diffs if _has_outer(d[3]) and not _has_outer(d[2])]
-        if len(missing) == len(diffs) and (is_throw or is_exit):
-            # the exception thrown in (or GeneratorExit) did not get the generator's own handled exception as context
-            if all(_is_caught_ctx(d[0]) or d[1] in (THROWN_NAME.get(oparg), 'GeneratorExit') for d in missing):
-                return 'throw-context-in-handler', info
-        if len(extra_outer) == len(diffs) and inh and (is_throw or is_exit):
-            return 'throw-context-from-caller', info
-        return '%s:chain:%s' % (pre, 'missing' if missing else 'extra' if extra_outer else 'other'), info
+    # (A) the first resume was a rejected send(non-None): CPython leaves the object startable, compiled object is finished
+    if state == 'created' and nonnone_send_unstarted and not tg[k][2] and (got_finished or 'other' in kinds):
+        # (no body code ran in the compiled object: it behaves like a finished one)
+        return 'send-nonnone-unstarted-finishes', info
+    # (C5) StopIteration thrown while delegating to an iterator without throw(): CPython 3.12 lets `yield from`/`await`
+    # take it as the delegate's result, compiled code raises it at the delegation point
+    if is_throw and oparg in ('SI', 'SIi') and deleg_kind in THROWLESS and 'other' in kinds:
+        return 'throw-stopiteration-into-throwless-delegate', info
+    # (K) close()/finalisation of a generator that answers GeneratorExit by *returning a value*
+    if is_exit and got_ignored and not exp_ignored and 'return-value-in-handler' in body.get('feat', ()):
+        return 'close-return-value-raises-ignored-exit', info
+    mode_t = o.endswith('/t')
+    if kind == 'coro' and got_pep479 and exp_pep479 and \
+            json.loads(json.dumps(tg[k]).replace('generator raised StopIteration', 'coroutine raised StopIteration')) == te[k]:
+        # PEP 479 conversion inside a coroutine: CPython says "coroutine raised StopIteration"
+        return 'pep479-message-coroutine', info
+    if feats and kinds <= {'ctx-missing', 'ctx-outer', 'ctx-other'}:
+        # differences confined to __context__ / sys.exc_info() observations: explain every one of them
+        def explain(f):
+            fk, owner = f
+            if fk == 'ctx-outer':
+                # (B2) throw()/close() issued while the caller handles an exception: the thrown exception is chained to
+                # it (seen at once, or later when the thrown exception resurfaces)
+                if inh_throw_before:
+                    return 'throw-context-from-caller'
+                # (G) try/finally 'return' paths put the exception the caller was handling at first entry back into the
+                # generator's own exception state
+                if inh_before:
+                    return 'caller-exc-info-leaks-into-generator'
+                return None
+            if mode_t:
+                # ValueError thrown into the half-driven asend()/athrow() awaitable, i.e. into an async generator that
+                # is awaiting: it reaches the async generator through its delegate, see (M)
+                return 'throw-context-in-handler-via-delegate'
+            if in_handler and (deleg_kind or unknown):
+                # (M) throw()/close() while delegating inside an except/finally block and the delegate lets the
+                # exception out: CPython re-chains it to the outer generator's handled exception
+                if is_throw or is_exit:
+                    return 'throw-context-in-handler-via-delegate'
+                # (N) the delegate raises on a plain resume: it is called outside the generator's exception context
+                if is_resume and fk == 'ctx-missing':
+                    return 'delegate-exception-context-in-handler'
+            if fk == 'ctx-missing':
+                # (F) suspended by a yield inside a finally clause that runs because of an exception
+                if in_finally:
+                    return 'yield-in-finally-clears-exc-info'
+                # (B1) the exception thrown in (or GeneratorExit) does not get the generator's handled exception as context
+                if (is_throw or is_exit) and owner in (THROWN_NAME.get(oparg), 'GeneratorExit', 'log'):
+                    return 'throw-context-in-handler'
+            if fk == 'ctx-other' and got_pep479 and exp_pep479 and owner == 'RuntimeError':
+                return 'pep479-runtimeerror-context-detail'
+            return None
+        keys = [explain(f) for f in feats]
+        info['explained'] = sorted({x for x in keys if x})
+        if all(keys):
+            order = ['yield-in-finally-clears-exc-info', 'throw-context-in-handler', 'throw-context-in-handler-via-delegate',
+                     'delegate-exception-context-in-handler', 'pep479-runtimeerror-context-detail',
+                     'throw-context-from-caller', 'caller-exc-info-leaks-into-generator']
+            return min(set(keys), key=order.index), info
+        return '%s:context-%s' % (pre, '+'.join(sorted(x[4:] for x in kinds))), info
     if _cls(oe) != _cls(og):
-        return '%s:outcome:%s->%s' % (pre, _cls(oe), _cls(og)), info
-    d0 = diffs[0][0] if diffs else ()
-    where = 'outcome' if d0 and d0[0][1] == 0 else 'log' if d0 and d0[0][1] == 1 else 'unraisable'
-    if where == 'unraisable':
-        return '%s:unraisable:%s->%s' % (pre, [u[0] for u in te[k][3]], [u[0] for u in tg[k][3]]), info
-    return '%s:%s:%s' % (pre, where, _cls(oe)), info
+        return '%s:%s:outcome:%s->%s' % (pre, oparg, _cls(oe), _cls(og)), info
+    where = sorted({f[1] for f in feats if f[0] == 'other'})
+    return '%s:%s:%s:%s' % (pre, oparg, '+'.join(where), _cls(oe)), info
 
 
 def state_class(st):
+    lex = st.split('|')[0]
     if st == 'created':
         return 'created'
-    if st == 'deleg':
+    if lex.startswith('deleg'):
         return 'in-delegation'
     if st in ('closed', 'finished', 'running'):
         return st
     if st == 'agen-op-pending':
         return 'agen-op-pending'
-    if st.startswith('susp-plain'):
+    if lex.startswith('susp-plain'):
         return 'suspended-plain'
-    if st.startswith(('susp-except', 'susp-finally')) or '+h' in st:
+    if lex.startswith(('susp-except', 'susp-finally')) or '+x' in lex or '+f' in lex:
         return 'suspended-in-handler'
-    if st.startswith(('susp-try', 'susp-with')):
+    if lex.startswith(('susp-try', 'susp-with')):
         return 'suspended-in-try'
     return 'suspended-other'
 
@@ -235,10 +363,10 @@ def _unsig(s):
 def main(ck):
     tree = cy.Tree('C23')
     rng = ck.rng('bodies')
-    nbodies = ck.pick(96, 1440)
-    per_mod = ck.pick(6, 24)
+    nbodies = ck.pick(72, 1440)
+    per_mod = ck.pick(9, 24)
     nrand = ck.pick(40, 200)
-    n_exh_bodies = ck.pick(9, 50)
+    n_exh_bodies = ck.pick(6, 50)
     exh_len = ck.pick(3, 4)
     mods = {}
     bodies = {}
@@ -250,6 +378,7 @@ def main(ck):
             b['mod'] = name
             bodies[b['name']] = b
     d, info = tree.build_sources(mods, subdir='b', ext='.py')
+    ck.cov['build_wall_s'] = round(ck.elapsed(), 1)
     skipped_build = 0
     covdir = tree.subdir('cov')
     covprefix = os.path.join(covdir, 'cov')
@@ -260,6 +389,7 @@ def main(ck):
     exh_left = {'gen': (n_exh_bodies + 2) // 3, 'coro': n_exh_bodies // 3, 'agen': n_exh_bodies // 3}
     exh_done = 0
     ncases_by_kind = {}
+    jobs = []
     for mname, inf in info.items():
         if not inf['ok']:
             skipped_build += 1
@@ -275,9 +405,17 @@ def main(ck):
             for h, flags, hk in histories_for(ck, hrng, b, nrand, do_exh):
                 cases.append(case_for(b, h, flags, hk))
                 ncases_by_kind[b['kind']] = ncases_by_kind.get(b['kind'], 0) + 1
-        res = diff.run_cases(tree, d, mname, cases, ref=inf['src'], compare=COMPARE, env_mods=ENV_MODS,
-                             preset=gengen.PRESET, tagdir='run_' + mname, timeout=900, nproc=ck.pick(2, 8),
-                             extra_env={'C23_COV': covprefix}, spec_extra={'catch_base': True, 'nsample': 2})
+        jobs.append((mname, inf, cases))
+
+    def run_module(job):
+        mname, inf, cases = job
+        return diff.run_cases(tree, d, mname, cases, ref=inf['src'], compare=COMPARE, env_mods=ENV_MODS,
+                              preset=gengen.PRESET, tagdir='run_' + mname, timeout=1800, nproc=ck.pick(1, 2),
+                              extra_env={'C23_COV': covprefix}, spec_extra={'catch_base': True, 'nsample': 2})
+
+    with ThreadPoolExecutor(8) as ex:
+        results = list(ex.map(run_module, jobs))
+    for (mname, inf, cases), res in zip(jobs, results):
         total_n += res.n
         samples.extend(res.samples[:1])
         for k, v in res.hist.items():
@@ -300,6 +438,10 @@ def main(ck):
             ck.discrepancy(key, what, witness(b, m['case'], m['exp'], m['got'], inf2))
         for c in res.crashes:
             b = bodies[c['case']['b']]
+            if c['kind'].startswith('HANG'):
+                # a watchdog firing is never a verdict (the machine may simply be overloaded)
+                ck.inconclusive_if(True, 'watchdog fired while driving %s with %s' % (b['name'], c['case']['h']))
+                continue
             ck.discrepancy('crash:%s' % b['kind'], 'crash/hang %s driving %s with %s' % (c['kind'], b['name'], c['case']['h']),
                            dict(witness(b, c['case'], None, None, {}), stderr=c['stderr']))
         for ft in res.fatal:
@@ -322,7 +464,7 @@ def main(ck):
                 unr += r['unr']
     states = {}
     for c, n in cells.items():
-        kind, st, op = c.split('|')
+        kind, st, op = c.split('~')
         stc = state_class(st)
         states.setdefault(stc, {})
         opc = op.split(':')[0]
